@@ -535,6 +535,14 @@ class VwApiMode(vlib.Mode):
                     fails.append(("http-incomplete", f"{self.pretty(l)} -> 200 without a JSON body"))
                 if status != 200 and cur != prev:
                     fails.append(("error-changed-rules", f"{self.pretty(l)} answered {status} but the rules changed"))
+                # a body that is not ONE JSON value (e.g. a rule followed by junk) must not be accepted by the add handlers
+                if f[0] == "http" and len(f) >= 4 and f[1] in ("POST", "PUT") and status == 200 and f[3] != "-" and \
+                        unhx(f[2]).decode("utf-8", "replace").rstrip("/") in ("/api/streams", "/api/destinations"):
+                    try:
+                        json.loads(unhx(f[3]).decode("utf-8", "replace"))
+                    except Exception:
+                        if not fails:
+                            fails.append(("nonjson-accepted", f"{self.pretty(l)}: the body is not a JSON value but was answered 200" + (" and the rules changed" if cur != prev else "")))
                 if f[1] == "DELETE" or (f[0] == "hcall" and "DestinationDelete" in f[1]):
                     must_have = must_have and apikey in D     # HTTP deletes are not protected (local interface)
                 elif must_have and apikey not in D:
